@@ -178,4 +178,14 @@ Section Sweepers.
   Definition rk_update (np : nat) (QDs : nat -> nat -> nat -> K) (u : nat -> V) (f : nat -> nat -> V) :=
     sweep_loop kO kadd kmul dt t0 nodes np feval QDs (rk_node_solve (QDs 0)) 1 (fun _ => u 0) (seq 1 M) (u, f).
 
+  (* imex_1st_order_mass.update_nodes: like imex_1st_order, but (i) the gather and the node loop run over
+     columns j = 0..M of QI/QE (column 0 of QE is the dTau column), (ii) on level 0 the mass matrix is
+     applied to u0, (iii) the problem's solve_system inverts (mass - factor*f_impl). *)
+  Definition mass_update (QI QE : nat -> nat -> K) (massop : V -> V) (level0 : bool)
+             (u : nat -> V) (f : nat -> nat -> V) (tau : nat -> option V) :=
+    let u0m := if level0 then massop (u 0) else u 0 in
+    let QDs := fun p => if Nat.eqb p 0 then QI else QE in
+    sweep_loop kO kadd kmul dt t0 nodes 2 feval QDs (imex_node_solve QI) 0
+               (gather kO kadd kmul ksub M dt Q 2 QDs 0 u0m f tau) (seq 1 M) (u, f).
+
 End Sweepers.
